@@ -299,6 +299,9 @@ var writableOperand = map[string]bool{"mul_rhs": true, "eq_lhs": true, "eq_rhs":
 // onlyNullAdditions: `after` is `before` plus entries that hold nothing but null
 // (created keys, padded indices, null re-typed as an empty/vivified container).
 func onlyNullAdditions(before, after string) bool {
+	if !strings.Contains(before, "\x00") || !strings.Contains(after, "\x00") {
+		return false // the document could not be re-encoded afterwards: not the finding's shape
+	}
 	b, err1 := hx.YAMLToModel(strings.SplitN(before, "\x00", 2)[1])
 	a, err2 := hx.YAMLToModel(strings.SplitN(after, "\x00", 2)[1])
 	if err1 == nil && len(b) == 0 {
